@@ -1109,13 +1109,17 @@ def expr_fn(
         return parse_binary_or(tok)
 
     tok = get_token()
-    ret = parse_expr(tok)
-    if isinstance(ret, str):
-        return ret
-    if isinstance(ret, float):
-        if ret == math.floor(ret):
-            return str(int(ret))
-    return str(ret)
+    try:
+        ret = parse_expr(tok)
+        if isinstance(ret, str):
+            return ret
+        if isinstance(ret, float):
+            if ret == math.floor(ret):
+                return str(int(ret))
+        return str(ret)
+    except (ArithmeticError, ValueError, TypeError, RecursionError) as e:
+        # overflow, domain and conversion errors are reported in-band
+        return '<strong class="error">Expression error: {}</strong>'.format(e)
 
 
 def padleft_fn(
